@@ -6,6 +6,7 @@ package interpreter
 
 import (
 	"fmt"
+	"sort"
 	"strings"
 
 	"github.com/ah-naf/borno/ast"
@@ -24,6 +25,7 @@ const (
 	kwPrint  = "\u09a6\u09c7\u0996\u09be\u0993"
 	kwReturn = "\u09ab\u09c7\u09b0\u09a4"
 	kwWhile  = "\u09af\u09a4\u0995\u09cd\u09b7\u09a3"
+	kwFor    = "\u09ab\u09b0"
 )
 
 // runSource: the real pipeline on a concrete program; returns what it printed, line by line.
@@ -392,4 +394,72 @@ func VH_dupKeys(nkeys int) {
 	}
 	verifAssert("initialisers-run-in-the-same-order-every-time", seq[0] == seq[1])
 	verifAssert("same-output-every-time", outs[0] == outs[1])
+}
+
+// builtinNames: the names bound in the global scope, in a fixed order.
+func builtinNames() []string {
+	g := NewInterpreter().globals
+	names := make([]string, 0, len(g.Values))
+	for n := range g.Values {
+		names = append(names, n)
+	}
+	sort.Strings(names)
+	return names
+}
+
+// VH_paramShadow (C03): a parameter may bear the name of a built-in (the parser bars those names
+// only for declared variables and functions); inside the function — and inside functions nested
+// in it — the name denotes the argument, for calls as for reads.
+func VH_paramShadow(nested int) {
+	names := builtinNames()
+	b := names[verifChoice(len(names))]
+	src := kwFun + " twice(x) { " + kwReturn + " x * 2; }\n"
+	if nested == 0 {
+		src += kwFun + " apply(" + b + ", v) { " + kwPrint + " " + b + "; " + kwReturn + " " + b + "(v); }\n"
+	} else {
+		src += kwFun + " apply(" + b + ", v) { " + kwFun + " inner() { " + kwPrint + " " + b + "; " + kwReturn + " " + b + "(v); } " + kwReturn + " inner(); }\n"
+	}
+	src += kwPrint + " apply(twice, 2.6);\n"
+	got, ok := runSource(src)
+	verifAssert("parameter-shadow-program-runs", ok)
+	verifAssert("read-yields-the-innermost-visible-binding", sameLines(got, []string{"<function twice>", "5.2"}))
+}
+
+// VH_loopClosure (C04): functions produced by different iterations of a loop own separate
+// variables, wherever in the loop body the declaration sits — directly in the body, or in a
+// bare block, an if-block or an inner loop inside it. Each iteration declares a body-level
+// variable v and a function that reads and bumps it; the functions are kept in an array and
+// called after the loop has ended (so v must outlive its iteration, once per iteration).
+func VH_loopClosure() {
+	loop := verifChoice(2) // 0: while, 1: for
+	nest := verifChoice(4) // 0: directly in the body, 1: bare block, 2: if-block, 3: inner for-loop body
+	decl := kwFun + " bump() { v = v + 1; " + kwReturn + " v; } fs[i] = bump;"
+	switch nest {
+	case 1:
+		decl = "{ " + decl + " }"
+	case 2:
+		decl = kwIf + " (i >= 0) { " + decl + " }"
+	case 3:
+		decl = kwFor + " (" + kwVar + " k = 0; k < 1; k = k + 1) { " + decl + " }"
+	}
+	body := "{ " + kwVar + " v = i * 10; " + decl
+	src := kwVar + " fs = [nil, nil, nil];\n"
+	if loop == 0 {
+		src += kwVar + " i = 0;\n" + kwWhile + " (i < 3) " + body + " i = i + 1; }\n"
+	} else {
+		src += kwFor + " (" + kwVar + " i = 0; i < 3; i = i + 1) " + body + " }\n"
+	}
+	// call order chosen freely: two calls of one closure and one of another
+	a := verifChoice(3)
+	b := verifChoice(3)
+	src += fmt.Sprintf("%s fs[%d]();\n%s fs[%d]();\n%s fs[%d]();\n", kwPrint, a, kwPrint, b, kwPrint, a)
+	cnt := [3]int{0, 10, 20}
+	var want []string
+	for _, k := range []int{a, b, a} {
+		cnt[k]++
+		want = append(want, fmt.Sprint(cnt[k]))
+	}
+	got, ok := runSource(src)
+	verifAssert("closure-program-runs", ok)
+	verifAssert("closure-counters-are-separate-and-persistent", sameLines(got, want))
 }
